@@ -475,7 +475,7 @@ def _guard(ctx, descr, fn, *a):
 
 
 def run_vol(ctx, reqs, pending):
-    n_cases = ctx.n(150, 2500)
+    n_cases = ctx.n(400, 6000)
     for idx in range(n_cases):
         descr, g, arr, mk = build_vol_case(ctx, idx)
         _guard(ctx, descr, check_vol_case, ctx, descr, g, arr, mk, reqs, pending)
@@ -633,7 +633,7 @@ def build_src_case(ctx, idx):
 
 
 def run_src(ctx, reqs, pending):
-    for idx in range(ctx.n(100, 1500)):
+    for idx in range(ctx.n(300, 4000)):
         descr, geo, arr, mk, src = build_src_case(ctx, idx)
         _guard(ctx, descr, check_src_case, ctx, descr, geo, arr, mk, src, reqs, pending)
 
@@ -762,7 +762,7 @@ def build_img_case(ctx, idx):
 
 
 def run_img(ctx, reqs, pending):
-    for idx in range(ctx.n(80, 1200)):
+    for idx in range(ctx.n(250, 3000)):
         descr, geo, shape, mk = build_img_case(ctx, idx)
         _guard(ctx, descr, check_img_case, ctx, descr, geo, shape, mk, reqs, pending)
 
@@ -871,7 +871,7 @@ def build_tiled_case(ctx, idx):
 
 
 def run_tiled(ctx, reqs, pending):
-    for idx in range(ctx.n(80, 1200)):
+    for idx in range(ctx.n(250, 3000)):
         descr, geo, mask, mk = build_tiled_case(ctx, idx)
         _guard(ctx, descr, check_tiled_case, ctx, descr, geo, mask, mk, reqs, pending)
 
@@ -980,7 +980,7 @@ def build_pyr_case(ctx, idx):
 
 
 def run_pyr(ctx, reqs, pending):
-    for idx in range(ctx.n(30, 400)):
+    for idx in range(ctx.n(60, 800)):
         descr, ps, mk = build_pyr_case(ctx, idx)
         _guard(ctx, descr, check_pyr_case, ctx, descr, ps, mk, reqs, pending)
 
@@ -1100,6 +1100,50 @@ def run_slice_requests_exhaustive(ctx, reqs, pending):
     ctx.exhaustive.append(f'get_volume(slice_start, slice_end) on a {n}-slice image and segmentation: all pairs in None or -n-2..n+2, both conventions')
 
 
+# ---------------------------------------------------------------------------------------------- fixed witnesses (corpus)
+def witness_case(ctx, case, reqs, pending):
+    """Minimised past failures (corpus/C03/*.json, `{"case": {"witness": name}}`) run through the same oracles."""
+    import highdicom as hd
+    from gen.sources import seg_description, slide_image
+    name = case['witness']
+    if name == 'slice-requests':
+        from highdicom.image import _Image
+        for s_, e_, n_, ai in ((1, 3, 5, False), (1, 2, 1, False), (-6, None, 5, True), (-7, 2, 5, False), (2, 0, 5, False)):
+            st, val = _fetch(_Image._standardize_slice_indices, s_, e_, n_, ai)
+            exp = py_req(s_, e_, n_, ai)
+            ctx.case(stream='witness')
+            if (exp is None) != (st != 'ok') or (exp is not None and tuple(val) != exp):
+                ctx.fail({'helper': '_standardize_slice_indices', 'start': s_, 'end': e_, 'n': n_, 'as_indices': ai},
+                         f'slice request means {exp}, got {val}', site='_standardize_slice_indices')
+    elif name == 'tiled-default-origin':
+        src, _ = slide_image(6, 8, 4, 4, origin=(10.0, 20.0, 0.0), pixel_spacing=(0.5, 0.25))
+        mask = np.zeros((1, 6, 8), np.uint8)
+        mask[0, 1, 2] = 1
+        mask[0, 5, 7] = 1
+        descr = {'stream': 'witness', 'witness': name, 'idx': 0, 'seed': ctx.seed, 'total': [6, 8], 'tile': [4, 4], 'type': 'LABELMAP',
+                 'nseg': 1, 'from_volume': False, 'tiled_full': False, 'omit': True, 'dir': 'src', 'exact': True, 'h': 0}
+        geo = ([F(0), F(-1), F(0)], [F(-1), F(0), F(0)], (F(1, 2), F(1, 4)), [([F(10), F(20), F(0)], mask[0].astype(np.int64))])
+        mk = lambda: hd.seg.Segmentation([src], mask.copy(), 'LABELMAP', [seg_description(1)], tile_pixel_array=True,  # noqa: E731
+                                         tile_size=(4, 4), **_seg_kw())
+        _guard(ctx, descr, check_tiled_case, ctx, descr, geo, mask, mk, reqs, pending)
+    elif name == 'pyramid-rank3':
+        for rank in (2, 3, 4):
+            src, _ = slide_image(16, 24, 8, 8, pixel_spacing=(0.5, 0.25))
+            m = np.zeros((16, 24), np.uint8)
+            m[2:9, 3:17] = 1
+            arr = {2: m, 3: m[None], 4: m[None, :, :, None]}[rank]
+            descr = {'stream': 'witness', 'witness': name, 'idx': rank, 'seed': ctx.seed, 'rank': rank, 'rows': 16, 'cols': 24,
+                     'mode': 'factors', 'type': 'BINARY', 'nseg': 1, 'pixel_spacing': ['1/2', '1/4'], 'factors': [2.0, 4.0]}
+            kw = dict(series_instance_uid=hd.UID(), series_number=2, manufacturer='m', manufacturer_model_name='mm',
+                      software_versions='1', device_serial_number='1')
+            mk = lambda arr=arr, src=src: hd.seg.create_segmentation_pyramid(  # noqa: E731
+                [src], [arr], 'BINARY', [seg_description(1)], downsample_factors=[2.0, 4.0], **kw)
+            _guard(ctx, descr, check_pyr_case, ctx, descr, (F(1, 2), F(1, 4)), mk, reqs, pending)
+    else:
+        return False
+    return True
+
+
 # ---------------------------------------------------------------------------------------------- run / replay
 STREAMS = {
     'vol': (build_vol_case, lambda ctx, c, rq, pd: check_vol_case(ctx, c[0], c[1], c[2], c[3], rq, pd)),
@@ -1166,6 +1210,8 @@ def run(ctx):
 
 
 def _run_one(ctx, case, reqs, pending):
+    if 'witness' in case:
+        return witness_case(ctx, case, reqs, pending)
     stream = case.get('stream')
     if stream not in STREAMS:
         return False
